@@ -29,7 +29,7 @@ ASSUMPTIONS = [
     "a negative interval -n fires exactly once, after step n, if the run reaches step n",
     "srun exists on the Monte Carlo drivers only; force-bias drivers are driven through run and irun",
 ]
-REQUIRED = {"rebuilt_continuations": 60, "splits_checked": 300, "zero_length_pieces": 100, "observer_logs_checked": 800, "negative_interval_logs": 200, "header_checks": 300, "step_invocations_counted": 1000}
+REQUIRED = {"splits_prepared_before_use": 100, "rebuilt_continuations": 60, "splits_checked": 300, "zero_length_pieces": 100, "observer_logs_checked": 800, "negative_interval_logs": 200, "header_checks": 300, "step_invocations_counted": 1000}
 SHARD_TIMEOUT = {"quick": 900, "thorough": 3000}
 
 STEP_COUNT = {"n": 0}
@@ -96,7 +96,7 @@ def install_step_counter():
 OBS_SETS = [(1, 2, 3, 7, -1, -2, -3, -7), (2, 3), (3, -4), (4, 6, -5), (2, 7, -3), (5,), (-2,), (3, 5, -7), (2, 4, -6), (6, -1)]
 
 
-def execute(w, seed, pieces, entries, log_interval, obs_set=OBS_SETS[0], default_observers=True):
+def execute(w, seed, pieces, entries, log_interval, obs_set=OBS_SETS[0], default_observers=True, prepared=False):
     from quansino.io.core import Observer
 
     from qv import sims
@@ -131,6 +131,17 @@ def execute(w, seed, pieces, entries, log_interval, obs_set=OBS_SETS[0], default
         obs[iv] = o
     STEP_COUNT["n"] = 0
     yielded = 0
+    if prepared:
+        # the pieces prepared first and consumed afterwards (itertools.chain(mc.irun(a), mc.srun(b)) and the like): every
+        # generator object exists before the first one is advanced
+        gens = [(e, mc.srun(p) if e == "srun" and is_mc else mc.irun(p)) for p, e in zip(pieces, entries)]
+        for e, g in gens:
+            for step in g:
+                yielded += 1
+                if is_mc and e != "srun":
+                    for _ in step:
+                        pass
+        pieces, entries = (), ()
     for p, e in zip(pieces, entries):
         if e == "run" or not is_mc and e == "srun":
             mc.run(p)
@@ -179,8 +190,14 @@ def run(spec):
             refs[rk] = execute(w, seed, (n,), ("run",), li, obs_set, defaults)
         ref = refs[rk]
         wit = {"driver": spec["driver"], "n": n, "pieces": list(parts), "entry_points": list(entries), "logging_interval": li, "observer_intervals": list(obs_set), "default_observers": defaults}
+        prepared = len(parts) >= 2 and ci % 3 == 1
+        if prepared:
+            entries = tuple("irun" if e == "run" else e for e in entries)
+            wit["entry_points"] = list(entries)
+            wit["generators_prepared_before_use"] = True
+            rec.count("splits_prepared_before_use")
         try:
-            got = execute(w, seed, parts, entries, li, obs_set, defaults)
+            got = execute(w, seed, parts, entries, li, obs_set, defaults, prepared)
         except Exception as ex:  # noqa: BLE001
             rec.viol(f"C15/raised/{type(ex).__name__}", f"split run raised {type(ex).__name__}: {ex}", wit)
             continue
